@@ -21,6 +21,8 @@ func main() {
 		devMain(os.Args[2:])
 	case "check":
 		checkMain(os.Args[2:])
+	case "names":
+		namesMain(os.Args[2:])
 	case "replay":
 		replayMain(os.Args[2:])
 	case "list":
